@@ -161,19 +161,22 @@ RSumIdx(T, f(_)) ==
 JudgeAggSum(p) ==
   LET W == p.whole
       PartOf(sec) == { <<k, n>> \in (DOMAIN p.parts) \X (1..20) : n \in DOMAIN p.parts[k].secs /\ p.parts[k].secs[n].sec = sec }
-      ys == UNION { YearsSet(p.parts[k].agg) : k \in DOMAIN p.parts }
+      \* the parts' OWN totals: the yearly figures and totals under the tables of their securities that completed
+      Own == { <<k, n>> \in (DOMAIN p.parts) \X (1..20) : n \in DOMAIN p.parts[k].secs /\ p.parts[k].secs[n].errors = <<>> }
+      OwnT(kn) == p.parts[kn[1]].secs[kn[2]]
+      ys == UNION { YearsSet(OwnT(kn)) : kn \in Own }
+      YearOr0(f, y) == IF y \in YearsSet(f) THEN YearVal(f, y) ELSE RZero
       bad == { n \in DOMAIN W.secs :
                  ~(Cardinality(PartOf(W.secs[n].sec)) = 1 /\
                    \A kn \in PartOf(W.secs[n].sec) : TableSame(p.parts[kn[1]].secs[kn[2]], W.secs[n])) }
   IN
   Chk(bad = {}, p.cls, "the table of " \o W.secs[IF bad = {} THEN 1 ELSE CHOOSE n \in bad : TRUE].sec
                          \o " differs between the whole input and the part that contains it",
-  Chk(YearsSet(W.agg) = ys /\ Len(W.agg.years) = Cardinality(ys), p.cls, "aggregate gains cover different years",
-  Chk(\A y \in ys : RClose(YearVal(W.agg, y),
-                            RSumIdx({ k \in DOMAIN p.parts : y \in YearsSet(p.parts[k].agg) }, LAMBDA k : YearVal(p.parts[k].agg, y)), Eps),
-      p.cls, "aggregate yearly gains are not the sum of the parts' own totals",
-  Chk(RClose(V(W.agg.total), RSumIdx(DOMAIN p.parts, LAMBDA k : V(p.parts[k].agg.total)), Eps),
-      p.cls, "aggregate total is not the sum of the parts' own totals", OkV))))
+  Chk(YearsSet(W.agg) \subseteq ys, p.cls, "aggregate gains list a year in which no security of the input has a figure",
+  Chk(\A y \in ys : RClose(YearOr0(W.agg, y), RSumIdx(Own, LAMBDA kn : YearOr0(OwnT(kn), y)), Eps),
+      p.cls, "aggregate yearly gains are not the sum of the securities' own yearly totals",
+  Chk(RClose(V(W.agg.total), RSumIdx(Own, LAMBDA kn : V(OwnT(kn).total)), Eps),
+      p.cls, "aggregate total is not the sum of the securities' own totals", OkV))))
 
 (* ---- summary: the full history against (summary rows + rows settling after the date) ---- *)
 \* (a split for all affiliates is reported once per affiliate that has rows; an affiliate that holds
